@@ -47,10 +47,11 @@ if __name__ == "__main__":
     dirs = sorted(d for d in glob.glob(os.path.join(here, "seeded", "*")) if os.path.isdir(d))
     if len(sys.argv) > 1:
         dirs = [d for d in dirs if os.path.basename(d) in sys.argv[1:]]
-    with ProcessPoolExecutor(max_workers=8) as ex:
+    with ProcessPoolExecutor(max_workers=6) as ex:
         results = list(ex.map(job, dirs))
     run(["git", "-C", "/repo", "worktree", "prune"])
-    out = {}
+    mpath = os.path.join(here, "seeded", "MATRIX.json")
+    out = json.load(open(mpath)) if len(sys.argv) > 1 and os.path.exists(mpath) else {}
     for name, prop, res in results:
         out[name] = {"breaks": prop, "fired": res}
         own = prop in res and res[prop]["rc"] == 1
